@@ -222,16 +222,29 @@ fn run_set(filters_json: &[Value], msgs: &[DltMessage], offset: u64, chunk: u64)
 /// process_stream_new_msgs driven the way the server loop (process_file_context) does: every tick hands over ALL
 /// pending messages with offset = all_msgs_last_processed_len, until nothing is pending
 struct RoundsRun {
+    active: bool,
     idxs: Vec<usize>,
     last_processed: usize,
     rounds: usize,
     stuck: bool,
 }
-fn run_rounds(filters_json: &[Value], msgs: &[DltMessage], chunk: u64) -> RoundsRun {
+impl RoundsRun {
+    /// the messages the server delivers for this context (remote.rs, process_file_context): without active
+    /// filters the stream's messages are all messages, else those listed in filtered_msgs
+    fn delivered(&self, n: usize) -> Vec<usize> {
+        if self.active {
+            self.idxs.clone()
+        } else {
+            (0..n).collect()
+        }
+    }
+}
+fn run_rounds(command: &str, filters_json: &[Value], msgs: &[DltMessage], chunk: u64) -> RoundsRun {
     let log = slog::Logger::root(slog::Discard, slog::o!());
-    let body = json!({ "filters": filters_json }).to_string();
-    let mut ctx = StreamContext::from(&log, "stream", &body).expect("StreamContext::from");
     let n = msgs.len();
+    // the window is wide enough for everything (a query stops collecting at the window's end)
+    let body = json!({ "window": [0, n + 5], "filters": filters_json }).to_string();
+    let mut ctx = StreamContext::from(&log, command, &body).expect("StreamContext::from");
     let mut rounds = 0;
     let mut stuck = false;
     loop {
@@ -246,7 +259,7 @@ fn run_rounds(filters_json: &[Value], msgs: &[DltMessage], chunk: u64) -> Rounds
         process_stream_new_msgs(&mut ctx, last, &msgs[last..], chunk as usize);
         rounds += 1;
     }
-    RoundsRun { idxs: ctx.filtered_msgs.clone(), last_processed: ctx.all_msgs_last_processed_len, rounds, stuck }
+    RoundsRun { active: ctx.filters_active, idxs: ctx.filtered_msgs.clone(), last_processed: ctx.all_msgs_last_processed_len, rounds, stuck }
 }
 
 struct ExportRun {
@@ -591,20 +604,21 @@ fn record(sink: &mut Sink, tmp: &std::path::Path, c: CaseIn, extra_tags: &[&str]
         let st_nobudget = if c2.budget.is_some() { run_stream(&filters2, &msgs2, None) } else { st.clone() };
         let set = run_set(&filters_json2, &msgs2, c2.offset, c2.chunk);
         let ex = run_export(&tmp2, &c2, &filters_json2, &msgs2, lcs);
-        let rounds = run_rounds(&filters_json2, &msgs2, c2.rounds_chunk);
+        let rounds = run_rounds("stream", &filters_json2, &msgs2, c2.rounds_chunk);
+        let rounds_q = run_rounds("query", &filters_json2, &msgs2, c2.rounds_chunk);
         // the same set without disabled and marker filters
         let rel: Vec<usize> = (0..filters2.len()).filter(|i| filters2[*i].enabled && filters2[*i].kind != FilterKind::Marker).collect();
         let rel_filters: Vec<Filter> = rel.iter().map(|i| filters2[*i].clone()).collect();
         let rel_json: Vec<Value> = rel.iter().map(|i| filters_json2[*i].clone()).collect();
         let st_rel = run_stream(&rel_filters, &msgs2, None);
         let set_rel = run_set(&rel_json, &msgs2, c2.offset, c2.chunk);
-        (st, st_nobudget, set, ex, st_rel, set_rel, rounds)
+        (st, st_nobudget, set, ex, st_rel, set_rel, rounds, rounds_q)
     }));
     let fail = |cl: &str, d: String| Verdict::Fail { clause: cl.into(), detail: d };
     let mut tags: Vec<String> = extra_tags.iter().map(|s| s.to_string()).collect();
     let (obs, verdict) = match &run {
         Err(e) => (O::T(vec![O::L(99)]), fail("no_panic", e.clone())),
-        Ok((st, st_nb, set, ex, st_rel, set_rel, rounds)) => {
+        Ok((st, st_nb, set, ex, st_rel, set_rel, rounds, rounds_q)) => {
             let obs = O::T(vec![
                 O::T(vec![
                     O::T(st.fwd.iter().map(|i| O::n(*i)).collect()),
@@ -691,6 +705,18 @@ fn record(sink: &mut Sink, tmp: &std::path::Path, c: CaseIn, extra_tags: &[&str]
                 }
                 if rounds.last_processed != n {
                     return fail("stream_rounds_counts", format!("{} messages reported as processed, {} received", rounds.last_processed, n));
+                }
+                // what the server delivers for a stream / a query built by StreamContext::from (all messages when
+                // filters_active is false, else filtered_msgs) is exactly what the keep rule incl. the event clause keeps
+                for (what, r) in [("stream", rounds), ("query", rounds_q)] {
+                    if r.stuck {
+                        return fail("stream_rounds_progress", format!("{}: {} of {} processed after {} ticks", what, r.last_processed, n, r.rounds));
+                    }
+                    let want: Vec<usize> = (0..n).filter(|m| kept_set[*m]).collect();
+                    let got = r.delivered(n);
+                    if got != want {
+                        return fail("delivered_set_rule", format!("{} (filters_active={}): delivers {:?}, rule keeps {:?}", what, r.active, got, want));
+                    }
                 }
                 // both implementations agree where both apply
                 if no_event {
@@ -806,7 +832,7 @@ fn record(sink: &mut Sink, tmp: &std::path::Path, c: CaseIn, extra_tags: &[&str]
     );
     // the meaning Exec/C12.v gives to the plugin's own lifecycle filters, checked against the real matcher
     let mut lc_filter_bad = false;
-    if let Ok((_, _, _, ex, _, _, _)) = &run {
+    if let Ok((_, _, _, ex, _, _, _, _)) = &run {
         let mut lists: Vec<Vec<u32>> = vec![vec![u32::MAX]];
         for k in 1..=ex.exported.len() {
             lists.push(ex.exported[..k].to_vec());
@@ -833,6 +859,15 @@ fn record(sink: &mut Sink, tmp: &std::path::Path, c: CaseIn, extra_tags: &[&str]
     if infos.iter().any(|f| !f.enabled) {
         tags.push("has_disabled".into());
     }
+    if en(3) > 0 && en(0) == 0 && en(1) == 0 {
+        tags.push("event_only".into());
+        if infos.iter().any(|f| !f.enabled && f.kind <= 1) {
+            tags.push("event_only_with_disabled_posneg".into());
+        }
+        if en(2) > 0 {
+            tags.push("event_only_with_marker".into());
+        }
+    }
     if c.filters.iter().any(|f| f["not"].as_bool() == Some(true)) {
         tags.push("has_negated".into());
     }
@@ -842,7 +877,7 @@ fn record(sink: &mut Sink, tmp: &std::path::Path, c: CaseIn, extra_tags: &[&str]
     if !c.to_keep.is_empty() {
         tags.push(if c.handle { "export_lifecycles_with_table" } else { "export_lifecycles_no_table" }.into());
     }
-    if let Ok((_, _, _, ex, _, _, _)) = &run {
+    if let Ok((_, _, _, ex, _, _, _, _)) = &run {
         if !ex.exported.is_empty() {
             tags.push(format!("export_lifecycles_found{}", ex.exported.len()));
         }
@@ -946,6 +981,32 @@ fn gen_case(rng: &mut Rng, big: bool) -> CaseIn {
             filters[j]["apid"] = json!(s4(apid(rng.below(3) as u8)));
         }
     }
+    if rng.chance(1, 8) {
+        // event-only sets: 1..3 enabled event filters, no enabled positive/negative one; optionally disabled
+        // positive/negative filters and markers around them
+        filters = (0..rng.range(1, 3))
+            .map(|_| {
+                let mut f = gen_filter(rng);
+                f["type"] = json!(3);
+                f["enabled"] = json!(true);
+                if f.get("ecu").is_none() && f.get("apid").is_none() && f.get("ctid").is_none() {
+                    f["ecu"] = json!(String::from_utf8(dltgen::ecu(rng.below(3) as u8).as_buf().to_vec()).unwrap());
+                }
+                f
+            })
+            .collect();
+        for _ in 0..rng.below(3) {
+            let mut f = gen_filter(rng);
+            if rng.chance(1, 2) {
+                f["type"] = json!(2);
+            } else {
+                f["type"] = json!(rng.below(2));
+                f["enabled"] = json!(false);
+            }
+            let at = rng.below(filters.len() as u64 + 1) as usize;
+            filters.insert(at, f);
+        }
+    }
     let nm = if rng.chance(1, 15) { 0 } else { rng.range(1, if big { 40 } else { 30 }) };
     // export with lifecyclesToKeep: 1..3 entries (ecu, [start, end]) around the lifecycle times 1000, 2000, 3000
     let to_keep: Vec<(u8, u64, u64)> = if rng.chance(1, 3) {
@@ -1038,6 +1099,10 @@ fn corpus(plan: &mut Plan) {
     plan.push((base(vec![json!({"type":0,"ecu":"EC00","enabled":false})]), vec!["corpus"]));
     // disabled negative / disabled event / marker must not veto
     plan.push((base(vec![json!({"type":1,"enabled":false}), json!({"type":3,"enabled":false,"ecu":"EC02"}), json!({"type":2,"ecu":"EC01"})]), vec!["corpus"]));
+    // event-only sets: the event clause must hold although there is no positive/negative filter
+    plan.push((base(vec![json!({"type":3,"ecu":"EC01"})]), vec!["corpus"]));
+    plan.push((base(vec![json!({"type":3,"apid":"APP0"}), json!({"type":0,"enabled":false}), json!({"type":1,"enabled":false,"ecu":"EC00"})]), vec!["corpus"]));
+    plan.push((base(vec![json!({"type":2}), json!({"type":3,"ecu":"EC02"}), json!({"type":3,"ctid":"CTX1"})]), vec!["corpus"]));
     // negated filters in all roles
     plan.push((base(vec![json!({"type":0,"not":true,"ecu":"EC00"}), json!({"type":1,"not":true,"apid":"APP0"}), json!({"type":3,"not":true,"ctid":"CTX1"})]), vec!["corpus"]));
     // criterion-free filters: positive matches all, negative vetoes all
